@@ -36,7 +36,10 @@ Trans == [ t0 |-> <<>>,
            t4 |-> ("X" :> T("Y", {})) @@ ("Y" :> T("X", {})),
            t5 |-> ("X" :> T("Y", {})) @@ ("Y" :> T("A", {})),
            t7 |-> [x \in {"X"} |-> T("A", {"R1"})],
-           t8 |-> [x \in {"X"} |-> T("A", {"R9"})] ]
+           t8 |-> [x \in {"X"} |-> T("A", {"R9"})],
+           \* cycles that pass through a rewrite transformation
+           t9 |-> [x \in {"X"} |-> T("X", {"R1"})],
+           t10 |-> ("X" :> T("Y", {"R1"})) @@ ("Y" :> T("X", {})) ]
 Fixes == [ f0 |-> [vars |-> {}, form |-> "string"], f1 |-> [vars |-> {"A"}, form |-> "string"],
            f2 |-> [vars |-> {"X"}, form |-> "string"], f3 |-> [vars |-> {"Z"}, form |-> "string"],
            f4 |-> [vars |-> {"X"}, form |-> "object"], f5 |-> [vars |-> {"A"}, form |-> "object"],
